@@ -152,17 +152,41 @@ def storage_kinds():
     `threading.local()` -> threadLocal, anything else -> processGlobal"""
     tree = parse("_storage.py")
     cells = {}
+
+    def is_tl(f):
+        return isinstance(f, ast.Attribute) and f.attr == "local" and isinstance(f.value, ast.Name) and f.value.id == "threading"
+
+    def mutable(v):
+        """a display that can be written through: dict / list / set, a comprehension, or a tuple holding one"""
+        if isinstance(v, (ast.Dict, ast.List, ast.Set, ast.ListComp, ast.DictComp, ast.SetComp)):
+            return True
+        return isinstance(v, ast.Tuple) and any(mutable(e) or isinstance(e, ast.Call) for e in v.elts)
+
+    # subclasses of threading.local: instances are per-thread, but a mutable object stored as a CLASS attribute is one
+    # object shared by every thread
+    tl_classes = set()
+    for node in tree.body:
+        if isinstance(node, ast.ClassDef) and any(is_tl(b) for b in node.bases):
+            tl_classes.add(node.name)
+            for m in node.body:
+                tgt, val = None, None
+                if isinstance(m, ast.Assign) and len(m.targets) == 1 and isinstance(m.targets[0], ast.Name):
+                    tgt, val = m.targets[0].id, m.value
+                elif isinstance(m, ast.AnnAssign) and isinstance(m.target, ast.Name) and m.value is not None:
+                    tgt, val = m.target.id, m.value
+                if tgt is not None and (mutable(val) or isinstance(val, ast.Call)):
+                    cells[f"{node.name}.{tgt}"] = "processGlobal"
     for node in tree.body:
         if isinstance(node, ast.Assign) and len(node.targets) == 1 and isinstance(node.targets[0], ast.Name):
             nm = node.targets[0].id
             v = node.value
             if isinstance(v, ast.Call):
                 f = v.func
-                if isinstance(f, ast.Attribute) and f.attr == "local" and isinstance(f.value, ast.Name) and f.value.id == "threading":
+                if is_tl(f) or (isinstance(f, ast.Name) and f.id in tl_classes):
                     cells[nm] = "threadLocal"
                 else:
                     cells[nm] = "processGlobal"
-            elif isinstance(v, (ast.Dict, ast.List, ast.Set)):
+            elif mutable(v):
                 cells[nm] = "processGlobal"
     # a module-level name rebound from inside a function (`global x`) is a process-global cell too
     for node in ast.walk(tree):
@@ -732,6 +756,14 @@ def hook_facts(facts):
                         scopes.append(m.name)
         if len(scopes) == 1 and scopes[0] in ("get_code", "exec_module"):
             h["patchScope"] = scopes[0]
+            # every way out of the method must lie inside the `with patch(...)`: an early `return` in front of it (say,
+            # when no bytecode is going to be written) leaves a path on which the interpreter's own cache name is used
+            m = find_def(ld, scopes[0])
+            withs = [w for w in ast.walk(m) if isinstance(w, ast.With) and any(call_name(it.context_expr) == "patch" for it in w.items)]
+            inside = {id(n) for w in withs for n in ast.walk(w)}
+            if any(isinstance(n, ast.Return) and id(n) not in inside for n in ast.walk(m)):
+                outside = [n for n in ast.walk(m) if isinstance(n, ast.If) and id(n) not in inside and any(isinstance(r, ast.Return) for r in ast.walk(n))]
+                h["patchScope"] = "get_code_if_writing" if any("dont_write_bytecode" in ast.unparse(n.test) for n in outside) else scopes[0] + "_conditional"
     oc = find_def(tree, "_optimized_cache_from_source")
     if oc is not None:
         for c in ast.walk(oc):
